@@ -6,6 +6,7 @@ import (
 	"go/ast"
 	"go/token"
 	"go/types"
+	"strings"
 
 	"fpcheck/core"
 
@@ -562,4 +563,117 @@ func SkipEmpty(c *core.Ctx, rule string, pkgs []*packages.Package) {
 		})
 	}
 	c.Floor(rule, "inner-iterator requests inside protocol thunks", n, 2)
+}
+
+// ArgOrder (C01): MapN(x1, …, xn, f) = x1.FlatMap(v1 => … xn.Map(vn => f(v1, …, vn))): the value bound by the
+// continuation attached to the i-th operand is the i-th argument of f.
+func ArgOrder(c *core.Ctx, rule string, pkgs []*packages.Package) {
+	c.Rule(rule, "in a function named Map<N> / LiftA<N> / LiftM<N> / ZipWith<N> whose parameters are n operands followed by an n-ary function f, the call f(a1, …, an) made inside nested continuation literals takes as a_i the parameter of the literal that is attached (argument of a call that mentions operand x_i) to the i-th operand: the derived combinator equals its FlatMap/Map definition also when two operands have the same type")
+	n := 0
+	for _, fb := range funcBodies(c, pkgs) {
+		if fb.Lit != nil || fb.Decl == nil || fb.Body == nil || fb.Decl.Recv != nil {
+			continue
+		}
+		name := fb.Decl.Name.Name
+		base := strings.TrimRight(name, "0123456789")
+		if base == name || (base != "Map" && base != "LiftA" && base != "LiftM" && base != "ZipWith") {
+			continue
+		}
+		info := fb.Pkg.TypesInfo
+		var params []types.Object
+		for _, f := range fb.Type.Params.List {
+			for _, nm := range f.Names {
+				params = append(params, info.Defs[nm])
+			}
+		}
+		// f: the first function-typed parameter with arity k >= 2, preceded by at least k operands
+		fi := -1
+		arity := 0
+		for i, p := range params {
+			if p == nil {
+				continue
+			}
+			if sig, ok := p.Type().Underlying().(*types.Signature); ok && sig.Params().Len() >= 2 && i >= sig.Params().Len() {
+				fi, arity = i, sig.Params().Len()
+				break
+			}
+		}
+		if fi < 0 {
+			continue
+		}
+		operands := params[fi-arity : fi]
+		opIndex := map[types.Object]int{}
+		for i, o := range operands {
+			if o != nil {
+				opIndex[o] = i
+			}
+		}
+		// literal parameter -> index of the operand its literal is attached to
+		bound := map[types.Object]int{}
+		ast.Inspect(fb.Body, func(x ast.Node) bool {
+			call, ok := x.(*ast.CallExpr)
+			if !ok {
+				return true
+			}
+			// operands mentioned directly by this call (receiver or plain arguments, not inside literals)
+			idx := -1
+			count := 0
+			see := func(e ast.Expr) {
+				if o := objOf(info, e); o != nil {
+					if i, ok := opIndex[o]; ok {
+						idx = i
+						count++
+					}
+				}
+			}
+			if sel, ok := ast.Unparen(call.Fun).(*ast.SelectorExpr); ok {
+				see(sel.X)
+			}
+			for _, a := range call.Args {
+				see(a)
+			}
+			if count != 1 {
+				return true
+			}
+			for _, a := range call.Args {
+				if lit, ok := ast.Unparen(a).(*ast.FuncLit); ok && len(lit.Type.Params.List) == 1 && len(lit.Type.Params.List[0].Names) == 1 {
+					if o := info.Defs[lit.Type.Params.List[0].Names[0]]; o != nil {
+						bound[o] = idx
+					}
+				}
+			}
+			return true
+		})
+		ast.Inspect(fb.Body, func(x ast.Node) bool {
+			call, ok := x.(*ast.CallExpr)
+			if !ok || objOf(info, call.Fun) != params[fi] || len(call.Args) != arity {
+				return true
+			}
+			n++
+			key := fb.Name + "/" + exprString(call.Fun)
+			resolved := true
+			bad := -1
+			for i, a := range call.Args {
+				o := objOf(info, a)
+				j, ok := bound[o]
+				if o == nil || !ok {
+					resolved = false
+					break
+				}
+				if j != i && bad < 0 {
+					bad = i
+				}
+			}
+			switch {
+			case !resolved:
+				c.Add(rule, key, call.Pos(), core.Skipped, "arguments are not all parameters of continuations attached to single operands: "+exprString(call))
+			case bad >= 0:
+				c.Add(rule, key, call.Pos(), core.Violated, exprString(call)+": argument "+itoa(bad+1)+" is the value bound from operand "+itoa(bound[objOf(info, call.Args[bad])]+1)+" ("+operands[bound[objOf(info, call.Args[bad])]].Name()+"): "+name+" no longer equals its FlatMap/Map definition (the operands reach f in permuted order)")
+			default:
+				c.Add(rule, key, call.Pos(), core.Discharged, "each argument comes from the continuation of the operand in the same position")
+			}
+			return true
+		})
+	}
+	c.Floor(rule, "MapN-style definitions", n, 8)
 }
